@@ -107,6 +107,8 @@ def check(ctx):
                 what = ("goroutine %s enters shard %s while it is still inside shard %s (two shard locks at a time: with a writer pending on each, "
                         "two such goroutines deadlock - CacheLockOrder.tla)" % (bad["g"], bad["s"], held[-1]["s"]) if nested else
                         "the workers never finished (goroutines stuck inside the cache)" if bad["ev"] == "Hung" else
+                        "dump %s, made into the file of the dumps before it while nothing else was going on, left a file that does not load back as what the "
+                        "cache holds (an announcement processed during the previous dump is missing)" % bad.get("dump") if bad["ev"] == "DumpFinal" else
                         "first unexplainable event %d: %s" % (n, json.dumps(bad)[:400]))
                 ctx.violation("%s: the recorded lock-boundary trace is not a behaviour of CacheTrace.tla: %s" % (name, what),
                               {"window": rows[max(0, n - 6):n]}, key=proto + ":trace:" + bad["ev"])
